@@ -3,7 +3,10 @@
 package executor
 
 import (
+	"context"
+
 	"github.com/ChainSafe/sygma-relayer/store"
+	"github.com/btcsuite/btcd/wire"
 	"github.com/sygmaprotocol/sygma-core/relayer/proposal"
 )
 
@@ -25,4 +28,11 @@ func (e *Executor) VerifC17ProposalsForExecution(ps []*proposal.Proposal, messag
 // outcome of sendTx).
 func (e *Executor) VerifC17StoreProposalsStatus(ps []*BtcTransferProposal, st store.PropStatus) {
 	e.storeProposalsStatus(ps, st)
+}
+
+// VerifC17WatchExecution calls the unexported watchExecution (collect signatures, send the transaction, record
+// the outcome for the proposals).
+func (e *Executor) VerifC17WatchExecution(ctx context.Context, cancel context.CancelFunc, tx *wire.MsgTx,
+	props []*BtcTransferProposal, sigChn chan interface{}, sessionID, messageID string) error {
+	return e.watchExecution(ctx, cancel, tx, props, sigChn, sessionID, messageID)
 }
